@@ -919,6 +919,63 @@ static void run_geq(long idx, vf_result *r)
     r->nontrivial = effect > 1e-6;
     vf_outcome(r, "geq %s kind %d %s", tname, gk, effect > 1e-6 ?
 	    "weights-matter" : "weights-idle");
+    if (gk == 6) {
+	/*
+	 * The calibration frequencies may be set again after the noise was
+	 * declared (vnacal_new(3) allows vnacal_new_set_frequency_vector at
+	 * any time before the solve): the values used are then those of the
+	 * declared profile at the frequencies of the calibration that is
+	 * solved.  Last check of the case (recorded finding).
+	 */
+	const cs_vna *v = &sc.vna;
+	vnacal_t *vcp = vnacal_create((vnaerr_error_fn_t *)vf_errfn, &elog);
+	vnacal_new_t *vnp = vcp ? vnacal_new_alloc(vcp, v->type, v->rows,
+		v->cols, v->nf) : NULL;
+	double fv[8], nfv[8], trv[8], first[CS_MAXF];
+	int at[CS_MAXF], n = 0;
+	for (int i = 0; i < v->nf; ++i) {
+	    at[i] = n;
+	    fv[n++] = v->f[i];
+	    if (i + 1 < v->nf)
+		fv[n++] = 0.5 * (v->f[i] + v->f[i + 1]);
+	    /* the first frequency vector: the midpoints, then the end */
+	    first[i] = i + 1 < v->nf ? 0.5 * (v->f[i] + v->f[i + 1]) :
+		v->f[i];
+	}
+	for (int i = 0; i < n; ++i) {
+	    double x = (fv[i] - v->f[0]) / (v->f[v->nf - 1] - v->f[0]);
+	    nfv[i] = 1e-3 * (1.0 + 2.0 * x) * (1.0 + 0.5 * sin(7.0 * x));
+	    trv[i] = 3e-2 * (1.0 - 0.5 * x) * (1.0 - 0.4 * sin(5.0 * x + 1.0));
+	}
+	/* the noise grid starts at f[0], the first calibration vector at
+	   the first midpoint: cover it by extrapolation-free means */
+	if (vnp != NULL && v->nf >= 2 &&
+		vnacal_new_set_frequency_vector(vnp, v->f) == 0 &&
+		vnacal_new_set_frequency_vector(vnp, first) == 0 &&
+		vnacal_new_set_m_error(vnp, fv, n, nfv, trv) == 0 &&
+		vnacal_new_set_frequency_vector(vnp, v->f) == 0) {
+	    for (int k = 0; k < v->nf; ++k) {
+		double gn = vnp->vn_m_error_vector[k].vnme_sigma_nf;
+		double gt = vnp->vn_m_error_vector[k].vnme_sigma_tr;
+		if (!(fabs(gn - nfv[at[k]]) <= 1e-12 * nfv[at[k]]) ||
+			!(fabs(gt - trv[at[k]]) <= 1e-12 * trv[at[k]])) {
+		    snprintf(sig, sizeof(sig), "geq-regrid-stale:%s", tname);
+		    vf_fail(r, sig, "noise declared on a %d-point grid, "
+			    "calibration frequencies set again afterwards: at "
+			    "%.6g Hz the library uses sigma_nf %.9g, sigma_tr "
+			    "%.9g, the declared profile has %.9g and %.9g "
+			    "there (the values interpolated for the earlier "
+			    "frequency vector are kept)", n, v->f[k], gn, gt,
+			    nfv[at[k]], trv[at[k]]);
+		    break;
+		}
+	    }
+	}
+	if (vnp != NULL)
+	    vnacal_new_free(vnp);
+	if (vcp != NULL)
+	    vnacal_free(vcp);
+    }
 done:
     g_slope_nf = g_slope_tr = 0.0;
     g_curve = 0;
